@@ -4,6 +4,7 @@ import copy
 import hashlib
 import json
 import pickle
+import time
 import sys
 
 import genlib
@@ -18,8 +19,11 @@ def dig(b):
 
 def main():
     lang, seeds, hist_file, out = sys.argv[1], json.loads(sys.argv[2]), sys.argv[3], sys.argv[4]
+    budget = int(sys.argv[5]) if len(sys.argv) > 5 else 10 ** 9        # seconds per base program
     genlib.setup(lang)
     hists = json.load(open(hist_file))
+
+    skipped = []
 
     def work():
         cases = []
@@ -44,7 +48,14 @@ def main():
                             pre.append({"lang": lname, "pkg": pk, "prog": name, "text": dig(genlib.translate(base[name], tr=genlib.translator(lg, PKG[pk])))})
                         except Exception:  # noqa: BLE001
                             pass
-            for hi, h in enumerate(hists):
+            todo = hists
+            started = time.time()
+            for hi, h in enumerate(todo):
+                # work bound: in-place mutations re-run the real type erasure (a powerset search) for every history; a base program
+                # for which that is slow takes a prefix of the history list (the exhaustive short histories come first)
+                if hi >= 30 and time.time() - started > budget:
+                    skipped.append([seed, len(todo) - hi])
+                    break
                 # histories that mutate a program in place get their own copies of the program objects
                 progs = dict(base)
                 for name in {c["prog"] for c in h if c["op"] == "mut"}:
@@ -95,7 +106,7 @@ def main():
                 cases.append({"id": "%s/%d/h%d" % (lang, seed, hi), "steps": steps, "pre": pre})
         return cases
     cases = genlib.in_big_stack(work)
-    json.dump({"cases": cases}, open(out, "w"), separators=(",", ":"))
+    json.dump({"cases": cases, "skipped": skipped}, open(out, "w"), separators=(",", ":"))
     print(json.dumps([out]))
 
 
